@@ -54,6 +54,17 @@ var c03Cases = []vCase{
 	{name: "cut-through-conj-call", prog: "q(k0). q(k1). p(X) :- (q(X), !). p(k2).", query: "p(X)."},
 	{name: "cut-after-ite", prog: "q(k0). q(k1). p(X) :- ( q(X) -> true ; X = k2 ), !. p(k3).", query: "p(X)."},
 	{name: "cut-after-naf", prog: "q(k0). p(X) :- \\+ q(X), !, X = k1. p(k2).", query: "p(X)."},
+	{name: "callN-comma-cut", prog: "q(k0). q(k1). q(k2). o(k0). o(k1).", query: "o(A), call(',', q(X), !)."},
+	{name: "callN-comma-closure-cut", prog: "q(k0). q(k1). q(k2).", query: "call(','(q(X)), !)."},
+	{name: "callN-comma-cut-then-test", prog: "q(k0). q(k1). q(k2).", query: "call(',', q(X), (!, X == k1))."},
+	{name: "callN-comma-findall", prog: "q(k0). q(k1). q(k2).", query: "findall(X, call(',', q(X), !), L)."},
+	{name: "callN-semicolon", prog: "q(k0). q(k1).", query: "call(';', q(X), X = k3)."},
+	{name: "callN-semicolon-cut-local", prog: "q(k0). q(k1). o(k0). o(k1).", query: "o(A), call(';', (q(X), !), X = k3)."},
+	{name: "callN-ifthen", prog: "q(k0). q(k1). r(k2). r(k3).", query: "call('->', q(X), r(Y))."},
+	{name: "callN-ifthenelse", prog: "q(k0). r(k2). r(k3).", query: "call(';', (q(k1) -> Y = k0), r(Y))."},
+	{name: "callN-comma-noncallable", prog: "", query: "catch(call(',', fail, 1), error(E, _), true)."},
+	{name: "callN-naf", prog: "q(k0).", query: "call(\\+, q(k1))."},
+	{name: "callN-call", prog: "q(k0). q(k1).", query: "call(call, (q(X), !))."},
 	{name: "cut-deep-recursion", prog: "c(z, k0) :- !. c(s(N), X) :- c(N, X). c(_, k1).", query: "c(s(s(z)), X)."},
 }
 
